@@ -214,3 +214,55 @@ func VerifC04BytesOptions(opt int) {
 	}
 	vrt.Assert("C04/bytes/value-restored", v.Y == w.Y && bytes.Equal(v.S, w.S))
 }
+
+// VerifC04PtrKeyMap: maps whose keys are pointers (to strings, to integers) round-trip: every
+// entry comes back under its own freshly allocated key.
+func VerifC04PtrKeyMap(intKeys bool) {
+	if intKeys {
+		k1, k2 := int8(vrt.Byte("k1")), int8(vrt.Byte("k2"))
+		vrt.Assume(k1 != k2)
+		m := map[*int8]bool{&k1: true, &k2: false}
+		out, err := Marshal(m)
+		vrt.Assert("C04/ptrkey/marshal-succeeds", err == nil)
+		var w map[*int8]bool
+		err = Unmarshal(out, &w)
+		vrt.Assert("C04/ptrkey/unmarshal-accepts-own-output", err == nil)
+		if err != nil {
+			return
+		}
+		seen1, seen2 := false, false
+		for k, v := range w {
+			if k != nil && *k == k1 && v {
+				seen1 = true
+			}
+			if k != nil && *k == k2 && !v {
+				seen2 = true
+			}
+		}
+		vrt.Assert("C04/ptrkey/value-restored", len(w) == 2 && seen1 && seen2)
+		vrt.Cover("decoded")
+		return
+	}
+	s1, s2 := zz04Str("s1", 1), zz04Str("s2", 1)
+	vrt.Assume(s1 != s2)
+	m := map[*string]int8{&s1: 1, &s2: 2}
+	out, err := Marshal(m)
+	vrt.Assert("C04/ptrkey/marshal-succeeds", err == nil)
+	var w map[*string]int8
+	err = Unmarshal(out, &w)
+	vrt.Assert("C04/ptrkey/unmarshal-accepts-own-output", err == nil)
+	if err != nil {
+		return
+	}
+	seen1, seen2 := false, false
+	for k, v := range w {
+		if k != nil && *k == s1 && v == 1 {
+			seen1 = true
+		}
+		if k != nil && *k == s2 && v == 2 {
+			seen2 = true
+		}
+	}
+	vrt.Assert("C04/ptrkey/value-restored", len(w) == 2 && seen1 && seen2)
+	vrt.Cover("decoded")
+}
